@@ -98,6 +98,8 @@ structure Obs where
   rpsmin : Int := 0
   /-- (instant of the first `Next` call, instant of the first "finished" answer) of every RPS schedule object that ended -/
   rpsspans : List (Int × Int) := []
+  /-- `Metrics.InstanceFinish` at the end (none: not observed) -/
+  mfin : Option Nat := none
 deriving Repr
 
 /-- margin around a cut inside which "was this token still started?" is not decided -/
@@ -261,6 +263,8 @@ where
     | none =>
     if o.k != ids.length then "fail:driver:k" else
     if o.mstart != o.k then s!"fail:metric:Metrics.InstanceStart counts {o.mstart} started instances, {o.k} guns were bound with an instance id" else
+    -- observers compute "running instances" as InstanceStart − InstanceFinish: at the end every instance that ran has finished once
+    if o.mfin.isSome && o.mfin != some o.exits.length then s!"fail:metric:Metrics.InstanceFinish counts {o.mfin.getD 0} finished instances, {o.exits.length} instances ran and were closed" else
     if (startCuts perinst o).isEmpty && o.err == "nil" && o.k != o.total then s!"fail:count:{o.k} instances for {o.total} tokens and nothing cut the start short" else
     if o.jitter ≤ jitterMax && o.k + o.fails < lower perinst o then s!"fail:missing:{o.k} instances, {lower perinst o} tokens were released {margin / 1000000} ms or more before the first cause {o.cuts}" else
     match judgeExits o with
